@@ -65,6 +65,7 @@ type c04Xfer struct {
 	kind     int
 	upSize   int
 	downSize int
+	nonWrite bool // one-way: the write is non-confirmable
 	call     *Call
 	started  bool
 	// receiving side records
@@ -137,6 +138,7 @@ func c04RunOpt(e *Env, tr string, faults bool, audit bool) {
 			}
 		}
 		x.upSize, x.downSize = c04Sizes(t, b), c04Sizes(t, b)
+		x.nonWrite = x.kind == xOneWay && IsDatagram(tr) && t.Chance(1, 2)
 		xfers[i] = x
 	}
 	upBody := func(x *c04Xfer) []byte { return Body(100+x.nonce, x.upSize) }
@@ -340,6 +342,11 @@ func c04RunOpt(e *Env, tr string, faults bool, audit bool) {
 				tok, _ := apiA.GetToken()
 				if err := m.SetupPost("/oneway", tok, message.AppOctets, bytes.NewReader(upBody(x)), QueryOpt(x.nonce)); err != nil {
 					return nil, err
+				}
+				if x.nonWrite {
+					// what a one-way write usually is: non-confirmable, nothing comes back
+					e.Probe("oneway.nonConfirmable")
+					m.SetType(message.NonConfirmable)
 				}
 				return nil, apiA.WriteMessage(m)
 			default:
